@@ -944,6 +944,13 @@ func (se *SpecEnv) callRealFree(x SExpr, fn *ssa.Function, free []Value, args []
 			}
 		}
 	}
+	if fc := ex.eng.cs.Funcs[funcKey(fn)]; fc != nil && ex.top != fn {
+		if _, abs := fc.Opts["abstract"]; abs {
+			if rv := ex.abstractResults(se.cur, se.reach, fn, fc, args); rv != nil {
+				return resultValue(rv), rt
+			}
+		}
+	}
 	if fc := ex.eng.cs.Funcs[funcKey(fn)]; fc != nil && ex.top != nil && ex.top != fn {
 		if _, functional := fc.Opts["functional"]; functional {
 			// the same uninterpreted function the call sites of the contract use; its contract's
